@@ -76,8 +76,12 @@ def work(job):
     optsets = [("direct", []), ("indirect", ["-findirect-start-ptr"])]
     if prog["feats"].get("yields"):
         optsets = [("indirect", [])]
-    if tier == "thorough":
+    if tier == "thorough" or prog["feats"].get("yields"):
+        # (yields land on consuming transitions at -O3: the early-advance template is live there)
         optsets.append(("indirect+O3", ["-O3", "-findirect-start-ptr"]))
+    if tier == "thorough" or len(prog["src"]) > 2300:
+        # (-O0 keeps unreachable states: the big programs get state indices beyond one byte)
+        optsets.append(("indirect+O0", ["-O0", "-findirect-start-ptr"]))
     for oname, oargs in optsets:
         wd = os.path.join(wd_root, str(os.getpid()))
         shutil.rmtree(wd, ignore_errors=True)
@@ -88,6 +92,9 @@ def work(job):
                 break
             continue
         res["states"] = case.nstates
+        # the state saved between calls must be able to hold every state index (the model's state is unbounded)
+        for prob in rtdiff.decl_width_problems(case.outcome):
+            res["viol"].append({"kind": "declared-width", "opt": oname, "detail": prob, "args": case.args})
         wf = rtdiff.model().ask("wf", case.opts, case.mt)
         res["wf"] = wf
         if "leavesOK=true" not in wf:
